@@ -44,21 +44,21 @@ theorem head?_rk' {c : Nat} {ks : List HTree} {n : HTree} (hl : ks.head? = some 
 theorem rk_nil (c : Nat) : rk c [] = [] := by simp [rk, replaceKids]
 
 theorem rb_of_not_mem {c : Nat} {K : HTree} (h : c ∉ handlesList K.kids) : rb c K = K :=
-  replaceBelow_of_not_mem c _ K h
+  fi_replaceBelow_of_not_mem c _ K h
 
 theorem rk_of_not_mem {c : Nat} {ks : List HTree} (h : c ∉ handlesList ks) : rk c ks = ks :=
   replaceKids_of_not_mem c _ ks h
 
-theorem map_h_cutPath (c : Nat) (path : List Frame) : (cutPath c path).map (·.h) = path.map (·.h) := by
+theorem map_h_cutPath (c : Nat) (path : List ZipFrame) : (cutPath c path).map (·.h) = path.map (·.h) := by
   simp [cutPath, List.map_map, Function.comp_def]
 
-theorem cutPath_append (c : Nat) (p q : List Frame) : cutPath c (p ++ q) = cutPath c p ++ cutPath c q := by
+theorem cutPath_append (c : Nat) (p q : List ZipFrame) : cutPath c (p ++ q) = cutPath c p ++ cutPath c q := by
   simp [cutPath]
 
 namespace Forest
 
 /-- `remove_subtree(c)` seen from a node `x` that is not inside `c`. -/
-structure DropView (f : Forest) (c x : Nat) (path : List Frame) (lx : List HTree) (K : HTree)
+structure DropView (f : Forest) (c x : Nat) (path : List ZipFrame) (lx : List HTree) (K : HTree)
     (rx : List HTree) : Prop where
   eq : f.dropSubtree c = { f with roots := plug (cutPath c path) (rk c lx ++ rb c K :: rk c rx) }
   loc : Loc (f.dropSubtree c).roots x (cutPath c path) (rk c lx) (rb c K) (rk c rx)
@@ -78,7 +78,7 @@ theorem dropView {f : Forest} {x c : Nat} {path lx K rx} (lc : Loc f.roots x pat
     exact List.Nodup.sublist (List.sublist_append_left _ _) (hp.symm.nodup nd)
 
 section view
-variable {f : Forest} {x c : Nat} {path : List Frame} {lx : List HTree} {K : HTree} {rx : List HTree}
+variable {f : Forest} {x c : Nat} {path : List ZipFrame} {lx : List HTree} {K : HTree} {rx : List HTree}
 
 theorem DropView.value? (v : DropView f c x path lx K rx) (lc : Loc f.roots x path lx K rx)
     (nd : f.allHandles.Nodup) : (f.dropSubtree c).value? x = f.value? x := by
@@ -206,7 +206,7 @@ theorem dropSubtree_comm {f : Forest} (nd : f.allHandles.Nodup) {a c : Nat}
     rcases hc with hc | hc
     · exact Or.inl hc
     · right
-      simp only [fi_handlesList_append, handlesList_cons, List.mem_append] at hc ⊢
+      simp only [fi_handlesList_append, fi_handlesList_cons, List.mem_append] at hc ⊢
       rcases hc with hc | hc | hc
       · exact Or.inl hc
       · exfalso
